@@ -1,12 +1,18 @@
 import Mdns.Lemmas.Sched
+import Mdns.Lemmas.ClientStop
+import Mdns.Props.C03
 /-
   C13  Stopping a search really stops it; channel protocol.
 
-  Model: `Mdns/Model/Sched.lean` (exact on histories without responders; compared with
-  the real daemon on every run).  The theorems hold for any sequence of iterations, however
-  late: they do not assume a timely scheduler.
+  First part: `Mdns/Model/Sched.lean` (exact on histories without responders; compared with
+  the real daemon on every run).  Second part (`section ClientModel`): the client model
+  `Mdns/Model/Client.lean` (compared with the real daemon per iteration: queries, events with
+  payload).  All theorems hold for any sequence of iterations, however late: they do not
+  assume a timely scheduler.
 -/
 namespace Mdns.Props.C13
+
+section SchedFragment
 open Mdns Mdns.Sched
 
 /-- the outputs of a whole history of iterations `(now, commands)` -/
@@ -85,5 +91,461 @@ theorem first_event_started (s : State) (now : Nat) (ty : BList) (ch : Nat) (co 
 example :
     outputs (init 1000000) [(1000000, [.browse [0x5f] 1 false]), (1001000, []), (1001500, [.stopBrowse [0x5f]]), (1003000, [])] =
     [.event 1 .started, .query [([0x5f], 12)], .event 1 .started, .query [([0x5f], 12)], .event 1 .stopped] := by decide
+
+end SchedFragment
+
+/-! ### the client model -/
+
+section ClientModel
+open Mdns Mdns.Rec Mdns.Cache Mdns.Client
+
+/-- the back-off delays of the queued re-runs are between a second and an hour (an invariant of
+    every history: `delays_ok_run`) -/
+def DelaysOk (s : State) : Prop := ∀ r ∈ s.reruns, DelayOk r
+
+/-! #### every output has a cause -/
+
+/-- **Every output of an iteration has a cause** (`Client.Origin`): an event goes to the channel of
+    a browse or hostname search of the state, of a queued re-run, or of a command of this
+    iteration; a PTR question is asked for a browsed type, a queued browse retransmission or a
+    `browse` command; A + AAAA for a hostname search that is open, for a follow-up or for a
+    browsed service; a single A / AAAA question for an open hostname search; and so on.  (The
+    classes of queued re-runs are those queued when the re-run phase starts.) -/
+theorem every_output_has_a_cause (s : State) (now : Nat) (pkts : List Packet) (cmds : List Command) :
+    ∀ o ∈ (iter s now pkts cmds).2, Origin s cmds (midClasses (preCommands s now pkts) now cmds) o :=
+  origin_iter s now pkts cmds
+
+/-! #### a channel nobody uses stays silent -/
+
+/-- **Silent for ever.**  Once no browse, no hostname search and no queued re-run reports to
+    `ch` (`ChanFree`: as after a stop, see below), no later iteration - whenever it runs,
+    whatever arrives, whatever other searches are started, stopped or time out - emits any event
+    on `ch`, until a command gives `ch` to a new search. -/
+theorem silent_for_ever (ch : Nat) : ∀ (h : List (Nat × List Packet × List Command)) (s : State),
+    ChanFree ch s → DelaysOk s → (∀ it ∈ h, ∀ c ∈ it.2.2, cchan c ≠ some ch) →
+    (∀ t e, (t, Out.event ch e) ∉ (run s h).2) ∧ ChanFree ch (run s h).1 ∧ DelaysOk (run s h).1
+  | [], s, hf, hD, _ => ⟨fun _ _ hm => (by cases hm), hf, hD⟩
+  | (now, pkts, cmds) :: rest, s, hf, hD, hc => by
+    obtain ⟨h1, h2, h3⟩ := chanFree_iter ch s now pkts cmds hf hD (hc _ List.mem_cons_self)
+    obtain ⟨h4, h5, h6⟩ := silent_for_ever ch rest _ h2 h3 (fun it hit => hc it (List.mem_cons_of_mem _ hit))
+    simp only [run]
+    refine ⟨?_, h5, h6⟩
+    intro t e hm
+    rcases List.mem_append.mp hm with hm | hm
+    · obtain ⟨o, ho, he⟩ := List.mem_map.mp hm
+      cases he
+      exact h1 e ho
+    · exact h4 t e hm
+
+theorem chanFree_init (ch t0 : Nat) (intfs : List Intf) : ChanFree ch (init t0 intfs) ∧ DelaysOk (init t0 intfs) :=
+  ⟨⟨fun _ h => (by cases h), fun _ h => (by cases h), fun _ h => (by cases h)⟩, fun _ h => (by cases h)⟩
+
+/-! #### the first event on a channel is `SearchStarted` -/
+
+theorem quiet_before_command (ch : Nat) (s : State) (now : Nat) (pkts : List Packet) (pre : List Command)
+    (hf : ChanFree ch s) (hD : DelaysOk s) (hpre : ∀ c ∈ pre, cchan c ≠ some ch) :
+    (∀ e, Out.event ch e ∉ (ingress s now pkts).2 ++ (runTimeouts (popTimers (ingress s now pkts).1 now) now).2 ++
+      (runCommands (preCommands s now pkts) now pre).2) ∧
+    ChanFree ch (runCommands (preCommands s now pkts) now pre).1 ∧
+    DelaysOk (runCommands (preCommands s now pkts) now pre).1 := by
+  obtain ⟨h1, hD1⟩ := SInv.preCommands hf now pkts hD (fun x hx => by cases hx)
+  have hckey : ∀ c ∈ pre, ∀ y, ckey c = some y → y.2.2 ≠ ch := by
+    intro c hcm y hy
+    have := hpre c hcm
+    cases c <;> simp [ckey] at hy <;> simp [cchan] at this <;> (subst hy; simpa using this)
+  have ht := SInv.tail h1 now pre hD1
+    (fun ty ch' co h => by have := hpre _ h; simpa [cchan] using this)
+    (fun h ch' t dl hm => by have := hpre _ hm; simpa [cchan] using this)
+    (fun x hx => by cases hx) hckey
+  have hst := step_runCommands (now := now) (cmds := pre) (KeyOK := fun _ => True) (OK := fun _ => True) trivial pre
+    (preCommands s now pkts) (fun _ h => h) (fun _ _ _ _ => trivial) (fun _ _ => trivial)
+  refine ⟨?_, ht.1, delayOk_of_step hst hD1⟩
+  intro e he
+  simp only [List.mem_append] at he
+  rcases he with (he | he) | he
+  · exact no_event_of_chanFree ch s [] [] e ⟨hf.queriers, hf.resolvers, fun _ _ => trivial⟩ (fun _ h => by cases h)
+      (fun _ h => by cases h) (fun _ h => by cases h) (origin_ingress [] [] now pkts s _ he)
+  · refine no_event_of_chanFree ch (popTimers (ingress s now pkts).1 now) [] [] e ⟨?_, ?_, fun _ _ => trivial⟩
+      (fun _ h => by cases h) (fun _ h => by cases h) (fun _ h => by cases h) (origin_runTimeouts _ [] [] now _ he)
+    · intro q hq
+      exact hf.queriers q (by simpa [popTimers] using hq)
+    · intro q hq
+      exact hf.resolvers q (by simpa [popTimers] using hq)
+  · exact no_event_of_chanFree ch (preCommands s now pkts) pre [] e ⟨h1.queriers, h1.resolvers, fun _ _ => trivial⟩ hpre
+      (fun _ h => by cases h) (fun _ h => by cases h) (origin_runCommands pre [] now pre _ (fun _ h => h) _ he)
+
+/-- **The first event on a browse channel is `SearchStarted`.**  `ch` is not in use; an iteration
+    processes the commands `pre`, which do not mention `ch`, then `browse(ty)` on `ch`: the
+    outputs of the iteration are `a ++ SearchStarted(ch) :: b` with no event on `ch` in `a`.
+    (With `silent_for_ever` from the start of the daemon: nothing on `ch` in earlier iterations.) -/
+theorem first_event_started_browse (ch : Nat) (s : State) (now : Nat) (pkts : List Packet) (pre : List Command)
+    (ty : BList) (co : Bool) (post : List Command) (hf : ChanFree ch s) (hD : DelaysOk s)
+    (hpre : ∀ c ∈ pre, cchan c ≠ some ch) :
+    ∃ a b, (iter s now pkts (pre ++ .browse ty ch co :: post)).2 = a ++ Out.event ch .started :: b ∧
+      ∀ e, Out.event ch e ∉ a := by
+  obtain ⟨hq, _, _⟩ := quiet_before_command ch s now pkts pre hf hD hpre
+  have hsplit := (iter_split s now pkts pre (.browse ty ch co) post).2
+  have hhead : ∃ b0, (execCommand (runCommands (preCommands s now pkts) now pre).1 now (.browse ty ch co)).2 =
+      Out.event ch .started :: b0 := by
+    simp only [execCommand, execBrowse, Bool.false_eq_true, if_false]
+    split <;> exact ⟨_, rfl⟩
+  obtain ⟨b0, hb0⟩ := hhead
+  refine ⟨((ingress s now pkts).2 ++ (runTimeouts (popTimers (ingress s now pkts).1 now) now).2 ++
+    (runCommands (preCommands s now pkts) now pre).2),
+    b0 ++ tailOuts (execCommand (runCommands (preCommands s now pkts) now pre).1 now (.browse ty ch co)).1 now post,
+    ?_, hq⟩
+  rw [hsplit, hb0]
+  simp only [List.append_assoc, List.cons_append]
+
+/-- **The first event on a hostname-search channel is `SearchStarted`.** -/
+theorem first_event_started_resolve (ch : Nat) (s : State) (now : Nat) (pkts : List Packet) (pre : List Command)
+    (host : BList) (t : Option Nat) (post : List Command) (hf : ChanFree ch s) (hD : DelaysOk s)
+    (hpre : ∀ c ∈ pre, cchan c ≠ some ch) :
+    ∃ a b, (iter s now pkts (pre ++ .resolveHost host ch t :: post)).2 = a ++ Out.event ch .hstarted :: b ∧
+      ∀ e, Out.event ch e ∉ a := by
+  obtain ⟨hq, _, _⟩ := quiet_before_command ch s now pkts pre hf hD hpre
+  have hsplit := (iter_split s now pkts pre (.resolveHost host ch t) post).2
+  have hhead : ∃ b0, (execCommand (runCommands (preCommands s now pkts) now pre).1 now (.resolveHost host ch t)).2 =
+      Out.event ch .hstarted :: b0 := by
+    simp only [execCommand, execResolveHost, Bool.false_and, Bool.false_eq_true, if_false]
+    exact ⟨_, rfl⟩
+  obtain ⟨b0, hb0⟩ := hhead
+  refine ⟨((ingress s now pkts).2 ++ (runTimeouts (popTimers (ingress s now pkts).1 now) now).2 ++
+    (runCommands (preCommands s now pkts) now pre).2),
+    b0 ++ tailOuts (execCommand (runCommands (preCommands s now pkts) now pre).1 now (.resolveHost host ch t)).1 now post,
+    ?_, hq⟩
+  rw [hsplit, hb0]
+  simp only [List.append_assoc, List.cons_append]
+
+/-! #### a search owns its channel -/
+
+/-- a command that does not mention `ch` respects "only the browse of `ty` uses `ch`" -/
+theorem onlyBrowse_iter (ch : Nat) (ty : BList) (s : State) (now : Nat) (pkts : List Packet) (cmds : List Command)
+    (ho : OnlyBrowse ch ty s) (hD : DelaysOk s) (hc : ∀ c ∈ cmds, cchan c ≠ some ch) :
+    OnlyBrowse ch ty (iter s now pkts cmds).1 ∧ DelaysOk (iter s now pkts cmds).1 := by
+  apply SInv.iter ho now pkts cmds hD
+  · intro ty' ch' co h he
+    have := hc _ h
+    simp only [cchan] at this
+    exact absurd (by simp only at he; exact congrArg some he) this
+  · intro h ch' t dl hm
+    have := hc _ hm
+    simpa [cchan] using this
+  · intro x hx
+    cases hx
+  · intro c hcm y hy he
+    have := hc c hcm
+    cases c <;> simp [ckey] at hy <;> simp [cchan] at this <;> (subst hy; simp at he; exact absurd he this)
+
+theorem onlyHost_iter (ch : Nat) (key : BList) (s : State) (now : Nat) (pkts : List Packet) (cmds : List Command)
+    (ho : OnlyHost ch key s) (hD : DelaysOk s) (hc : ∀ c ∈ cmds, cchan c ≠ some ch) :
+    OnlyHost ch key (iter s now pkts cmds).1 ∧ DelaysOk (iter s now pkts cmds).1 := by
+  apply SInv.iter ho now pkts cmds hD
+  · intro ty' ch' co h
+    have := hc _ h
+    simpa [cchan] using this
+  · intro h ch' t dl hm he
+    have := hc _ hm
+    simp only [cchan] at this
+    exact absurd (by simp only at he; exact congrArg some he) this
+  · intro x hx
+    cases hx
+  · intro c hcm y hy he
+    have := hc c hcm
+    cases c <;> simp [ckey] at hy <;> simp [cchan] at this <;> (subst hy; simp at he; exact absurd he this)
+
+/-- **`browse(ty)` on a channel that is not in use makes the browse its only user**, at the end
+    of that iteration (the other commands of the iteration do not mention `ch`) -/
+theorem browse_owns_channel (ch : Nat) (s : State) (now : Nat) (pkts : List Packet) (pre : List Command) (ty : BList)
+    (co : Bool) (post : List Command) (hf : ChanFree ch s) (hD : DelaysOk s) (hpre : ∀ c ∈ pre, cchan c ≠ some ch)
+    (hpost : ∀ c ∈ post, cchan c ≠ some ch) :
+    OnlyBrowse ch ty (iter s now pkts (pre ++ .browse ty ch co :: post)).1 ∧
+    DelaysOk (iter s now pkts (pre ++ .browse ty ch co :: post)).1 := by
+  obtain ⟨_, hf0, hD0⟩ := quiet_before_command ch s now pkts pre hf hD hpre
+  have hst := step_execCommand (now := now) (cmds := [.browse ty ch co])
+    (KeyOK := fun k => k = none ∨ k = some (0, ty, ch)) (OK := fun _ => True)
+    (runCommands (preCommands s now pkts) now pre).1 (.browse ty ch co) (by simp) (fun _ _ => trivial) (Or.inl rfl) (Or.inr rfl)
+  have h1 : OnlyBrowse ch ty (execCommand (runCommands (preCommands s now pkts) now pre).1 now (.browse ty ch co)).1 := by
+    refine SInv.step hst (hf0.onlyBrowse ty) ?_ ?_ ?_
+    · intro ty' ch' co' h _
+      simp only [List.mem_singleton, Command.browse.injEq] at h
+      exact h.1
+    · intro h ch' t dl hm
+      simp at hm
+    · rintro k (rfl | rfl) x hx he
+      · cases hx
+      · cases hx
+        rfl
+  have hD1 := delayOk_of_step hst hD0
+  have ht := SInv.tail h1 now post hD1
+    (fun ty' ch' co' h he => by
+      have := hpost _ h
+      simp only [cchan] at this
+      exact absurd (by simp only at he; exact congrArg some he) this)
+    (fun h ch' t dl hm => by have := hpost _ hm; simpa [cchan] using this)
+    (fun x hx => by cases hx)
+    (by
+      intro c hcm y hy he
+      have := hpost c hcm
+      cases c <;> simp [ckey] at hy <;> simp [cchan] at this <;> (subst hy; simp at he; exact absurd he this))
+  rw [(iter_split s now pkts pre (.browse ty ch co) post).1]
+  exact ⟨ht.2.1, ht.2.2⟩
+
+/-- **`resolve_hostname(host)` on a channel that is not in use makes the search its only user** -/
+theorem resolve_owns_channel (ch : Nat) (s : State) (now : Nat) (pkts : List Packet) (pre : List Command) (host : BList)
+    (t : Option Nat) (post : List Command) (hf : ChanFree ch s) (hD : DelaysOk s) (hpre : ∀ c ∈ pre, cchan c ≠ some ch)
+    (hpost : ∀ c ∈ post, cchan c ≠ some ch) :
+    OnlyHost ch (lower host) (iter s now pkts (pre ++ .resolveHost host ch t :: post)).1 ∧
+    DelaysOk (iter s now pkts (pre ++ .resolveHost host ch t :: post)).1 := by
+  obtain ⟨_, hf0, hD0⟩ := quiet_before_command ch s now pkts pre hf hD hpre
+  have hst := step_execCommand (now := now) (cmds := [.resolveHost host ch t])
+    (KeyOK := fun k => k = none ∨ k = some (1, host, ch)) (OK := fun _ => True)
+    (runCommands (preCommands s now pkts) now pre).1 (.resolveHost host ch t) (by simp) (fun _ _ => trivial) (Or.inl rfl)
+    (Or.inr rfl)
+  have h1 : OnlyHost ch (lower host)
+      (execCommand (runCommands (preCommands s now pkts) now pre).1 now (.resolveHost host ch t)).1 := by
+    refine SInv.step hst (hf0.onlyHost (lower host)) ?_ ?_ ?_
+    · intro ty' ch' co' h
+      simp at h
+    · intro h ch' t' dl hm _
+      simp only [List.mem_singleton, Command.resolveHost.injEq] at hm
+      rw [hm.1]
+    · rintro k (rfl | rfl) x hx he
+      · cases hx
+      · cases hx
+        exact ⟨rfl, rfl⟩
+  have hD1 := delayOk_of_step hst hD0
+  have ht := SInv.tail h1 now post hD1
+    (fun ty' ch' co' h => by have := hpost _ h; simpa [cchan] using this)
+    (fun h ch' t' dl hm he => by
+      have := hpost _ hm
+      simp only [cchan] at this
+      exact absurd (by simp only at he; exact congrArg some he) this)
+    (fun x hx => by cases hx)
+    (by
+      intro c hcm y hy he
+      have := hpost c hcm
+      cases c <;> simp [ckey] at hy <;> simp [cchan] at this <;> (subst hy; simp at he; exact absurd he this))
+  rw [(iter_split s now pkts pre (.resolveHost host ch t) post).1]
+  exact ⟨ht.2.1, ht.2.2⟩
+
+/-! #### `SearchStopped` is the last event, and comes once -/
+
+/-- **`stop_browse` really stops (the iteration of the stop).**  The browse of `ty` is the only
+    user of `ch`; an iteration processes commands `pre` (not mentioning `ch`), finds the browse
+    of `ty` still running on `ch`, processes `stop_browse(ty)` and then `post` (not mentioning
+    `ch`).  Then the stop emits exactly `SearchStopped(ty)` on `ch`, the rest of the iteration
+    emits nothing on `ch`, and afterwards nobody uses `ch`: by `silent_for_ever` no later
+    iteration emits anything on it - `SearchStopped` is the last event and is not repeated. -/
+theorem stop_browse_final (ch : Nat) (ty : BList) (s : State) (now : Nat) (pkts : List Packet)
+    (pre post : List Command) (ho : OnlyBrowse ch ty s) (hD : DelaysOk s)
+    (hpre : ∀ c ∈ pre, cchan c ≠ some ch) (hpost : ∀ c ∈ post, cchan c ≠ some ch)
+    (hq : (runCommands (preCommands s now pkts) now pre).1.queriers.find? (·.1 == ty) = some (ty, ch)) :
+    ∃ a b, (iter s now pkts (pre ++ .stopBrowse ty :: post)).2 = a ++ Out.event ch (.stopped ty) :: b ∧
+      (∀ e, Out.event ch e ∉ b) ∧
+      ChanFree ch (iter s now pkts (pre ++ .stopBrowse ty :: post)).1 ∧
+      DelaysOk (iter s now pkts (pre ++ .stopBrowse ty :: post)).1 := by
+  obtain ⟨h1, hD1⟩ := SInv.preCommands ho now pkts hD (fun x hx => by cases hx)
+  have hckey : ∀ l : List Command, (∀ c ∈ l, cchan c ≠ some ch) →
+      ∀ c ∈ l, ∀ y, ckey c = some y → y.2.2 = ch → y = (0, ty, ch) := by
+    intro l hl c hcm y hy he
+    have := hl c hcm
+    cases c <;> simp [ckey] at hy <;> simp [cchan] at this <;> (subst hy; simp at he; exact absurd he this)
+  have ht := SInv.tail h1 now pre hD1
+    (fun ty' ch' co h he => by
+      have := hpre _ h
+      simp only [cchan] at this
+      exact absurd (by simp only at he; exact congrArg some he) this)
+    (fun h ch' t dl hm => by have := hpre _ hm; simpa [cchan] using this)
+    (fun x hx => by cases hx) (hckey pre hpre)
+  have hst := step_runCommands (now := now) (cmds := pre) (KeyOK := fun _ => True) (OK := fun _ => True) trivial pre
+    (preCommands s now pkts) (fun _ h => h) (fun _ _ _ _ => trivial) (fun _ _ => trivial)
+  have hD2 := delayOk_of_step hst hD1
+  obtain ⟨s1, _, s3, s4⟩ := stopBrowse_spec (runCommands (preCommands s now pkts) now pre).1 ty ch hq
+  have hf := s3 ht.1
+  have hD3 : DelaysOk (execStopBrowse (runCommands (preCommands s now pkts) now pre).1 ty).1 :=
+    fun r hr => hD2 r (s4 r hr)
+  obtain ⟨t1, t2, t3⟩ := chanFree_tail ch _ now post hf hD3 hpost
+  have hsplit := iter_split s now pkts pre (.stopBrowse ty) post
+  refine ⟨((ingress s now pkts).2 ++ (runTimeouts (popTimers (ingress s now pkts).1 now) now).2 ++
+    (runCommands (preCommands s now pkts) now pre).2),
+    tailOuts (execCommand (runCommands (preCommands s now pkts) now pre).1 now (.stopBrowse ty)).1 now post, ?_, ?_, ?_, ?_⟩
+  · rw [hsplit.2]
+    show _ ++ (execStopBrowse (runCommands (preCommands s now pkts) now pre).1 ty).2 ++ _ = _
+    rw [s1]
+    simp only [List.append_assoc, List.cons_append, List.nil_append]
+  · exact t1
+  · rw [hsplit.1]
+    exact t2
+  · rw [hsplit.1]
+    exact t3
+
+/-- **`stop_resolve_hostname` really stops (the iteration of the stop)**, in whatever letter
+    case the name is given -/
+theorem stop_resolve_final (ch : Nat) (host : BList) (dl : Option Nat) (s : State) (now : Nat) (pkts : List Packet)
+    (pre post : List Command) (ho : OnlyHost ch (lower host) s) (hD : DelaysOk s)
+    (hpre : ∀ c ∈ pre, cchan c ≠ some ch) (hpost : ∀ c ∈ post, cchan c ≠ some ch)
+    (hq : (runCommands (preCommands s now pkts) now pre).1.resolvers.find? (·.1 == lower host) =
+      some (lower host, ch, dl)) :
+    ∃ a b, (iter s now pkts (pre ++ .stopResolve host :: post)).2 = a ++ Out.event ch (.hstopped (lower host)) :: b ∧
+      (∀ e, Out.event ch e ∉ b) ∧
+      ChanFree ch (iter s now pkts (pre ++ .stopResolve host :: post)).1 ∧
+      DelaysOk (iter s now pkts (pre ++ .stopResolve host :: post)).1 := by
+  obtain ⟨h1, hD1⟩ := SInv.preCommands ho now pkts hD (fun x hx => by cases hx)
+  have ht := SInv.tail h1 now pre hD1
+    (fun ty' ch' co h => by have := hpre _ h; simpa [cchan] using this)
+    (fun h ch' t dl' hm he => by
+      have := hpre _ hm
+      simp only [cchan] at this
+      exact absurd (by simp only at he; exact congrArg some he) this)
+    (fun x hx => by cases hx)
+    (by
+      intro c hcm y hy he
+      have := hpre c hcm
+      cases c <;> simp [ckey] at hy <;> simp [cchan] at this <;> (subst hy; simp at he; exact absurd he this))
+  have hst := step_runCommands (now := now) (cmds := pre) (KeyOK := fun _ => True) (OK := fun _ => True) trivial pre
+    (preCommands s now pkts) (fun _ h => h) (fun _ _ _ _ => trivial) (fun _ _ => trivial)
+  have hD2 := delayOk_of_step hst hD1
+  obtain ⟨s1, _, s3, s4, _⟩ := stopResolve_spec (runCommands (preCommands s now pkts) now pre).1 host ch dl hq
+  have hf := s3 ht.1
+  have hD3 : DelaysOk (execStopResolve (runCommands (preCommands s now pkts) now pre).1 host).1 :=
+    fun r hr => hD2 r (s4 r hr)
+  obtain ⟨t1, t2, t3⟩ := chanFree_tail ch _ now post hf hD3 hpost
+  have hsplit := iter_split s now pkts pre (.stopResolve host) post
+  refine ⟨((ingress s now pkts).2 ++ (runTimeouts (popTimers (ingress s now pkts).1 now) now).2 ++
+    (runCommands (preCommands s now pkts) now pre).2),
+    tailOuts (execCommand (runCommands (preCommands s now pkts) now pre).1 now (.stopResolve host)).1 now post,
+    ?_, ?_, ?_, ?_⟩
+  · rw [hsplit.2]
+    show _ ++ (execStopResolve (runCommands (preCommands s now pkts) now pre).1 host).2 ++ _ = _
+    rw [s1]
+    simp only [List.append_assoc, List.cons_append, List.nil_append]
+  · exact t1
+  · rw [hsplit.1]
+    exact t2
+  · rw [hsplit.1]
+    exact t3
+
+/-! #### no query caused by a stopped search -/
+
+/-- **No PTR query for a type that is not browsed**, in any later history: once nothing is
+    browsed or queued for `ty` (`BrowseGone`, as `stop_browse` leaves it: `stop_browse_gone`), no
+    iteration - whenever it runs, whatever arrives, whatever other searches do - asks
+    `[(ty, PTR)]`, until `browse(ty)` is called again. -/
+theorem no_ptr_query_after_stop (ty : BList) : ∀ (h : List (Nat × List Packet × List Command)) (s : State),
+    BrowseGone ty s → DelaysOk s → (∀ it ∈ h, ∀ ch co, Command.browse ty ch co ∉ it.2.2) →
+    (∀ t known, (t, Out.query [(ty, 12)] known) ∉ (run s h).2) ∧ BrowseGone ty (run s h).1 ∧ DelaysOk (run s h).1
+  | [], s, hf, hD, _ => ⟨fun _ _ hm => (by cases hm), hf, hD⟩
+  | (now, pkts, cmds) :: rest, s, hf, hD, hc => by
+    obtain ⟨h1, h2, h3⟩ := browseGone_iter ty s now pkts cmds hf hD (hc _ List.mem_cons_self)
+    obtain ⟨h4, h5, h6⟩ := no_ptr_query_after_stop ty rest _ h2 h3 (fun it hit => hc it (List.mem_cons_of_mem _ hit))
+    simp only [run]
+    refine ⟨?_, h5, h6⟩
+    intro t known hm
+    rcases List.mem_append.mp hm with hm | hm
+    · obtain ⟨o, ho, he⟩ := List.mem_map.mp hm
+      cases he
+      exact h1 known ho
+    · exact h4 t known hm
+
+/-- `stop_browse(ty)` on a running browse leaves nothing browsed or queued for `ty` at the end of
+    its iteration (no `browse(ty)` after it in that iteration), and the rest of the iteration
+    asks no PTR question for `ty` -/
+theorem stop_browse_gone (ty : BList) (ch : Nat) (s : State) (now : Nat) (pkts : List Packet) (pre post : List Command)
+    (hD : DelaysOk s) (hpost : ∀ ch' co, Command.browse ty ch' co ∉ post)
+    (hq : (runCommands (preCommands s now pkts) now pre).1.queriers.find? (·.1 == ty) = some (ty, ch)) :
+    (∀ known, Out.query [(ty, 12)] known ∉
+      tailOuts (execCommand (runCommands (preCommands s now pkts) now pre).1 now (.stopBrowse ty)).1 now post) ∧
+    BrowseGone ty (iter s now pkts (pre ++ .stopBrowse ty :: post)).1 ∧
+    DelaysOk (iter s now pkts (pre ++ .stopBrowse ty :: post)).1 := by
+  have hing := step_ingress (now := now) (cmds := []) (KeyOK := fun k => k = none) (OK := fun _ => True) rfl pkts s
+    (fun _ _ => trivial)
+  have hD1 : DelaysOk (preCommands s now pkts) := fun r hr => delayOk_of_step hing hD r hr
+  have hst := step_runCommands (now := now) (cmds := pre) (KeyOK := fun _ => True) (OK := fun _ => True) trivial pre
+    (preCommands s now pkts) (fun _ h => h) (fun _ _ _ _ => trivial) (fun _ _ => trivial)
+  have hD2 := delayOk_of_step hst hD1
+  obtain ⟨_, s2, _, s4⟩ := stopBrowse_spec (runCommands (preCommands s now pkts) now pre).1 ty ch hq
+  have hD3 : DelaysOk (execStopBrowse (runCommands (preCommands s now pkts) now pre).1 ty).1 :=
+    fun r hr => hD2 r (s4 r hr)
+  obtain ⟨t1, t2, t3⟩ := browseGone_tail ty _ now post s2 hD3 hpost
+  rw [(iter_split s now pkts pre (.stopBrowse ty) post).1]
+  exact ⟨t1, t2, t3⟩
+
+/-- **No address query for a host name that is not searched**, in any later history, for a
+    daemon that browses nothing (as the monitor assumes: with a browse, A / AAAA questions for
+    the host of a browsed service are legitimate): once no hostname search for `key` is open
+    or queued (`HostGone`, as `stop_resolve_hostname` leaves it), no iteration asks A + AAAA for
+    a name that lower-cases to `key`, nor a single A / AAAA question for `key`, until
+    `resolve_hostname` is called for that name again (in any letter case). -/
+theorem no_host_query_after_stop (key : BList) : ∀ (h : List (Nat × List Packet × List Command)) (s : State),
+    HostGone key s → NoBrowseWork s → DelaysOk s →
+    (∀ it ∈ h, (∀ h0 ch t, Command.resolveHost h0 ch t ∈ it.2.2 → lower h0 ≠ key) ∧
+      it.2.2.all (fun c => !isBrowseCommand c) = true) →
+    (∀ t o, (t, o) ∈ (run s h).2 → asksHost key o = false) ∧ HostGone key (run s h).1
+  | [], s, hf, _, _, _ => ⟨fun _ _ hm => (by cases hm), hf⟩
+  | (now, pkts, cmds) :: rest, s, hf, hw, hD, hc => by
+    have hc0 := hc _ List.mem_cons_self
+    obtain ⟨h1, h2, h3, h4⟩ := hostGone_iter key s now pkts cmds hf hw hD hc0.1 hc0.2
+    obtain ⟨h5, h6⟩ := no_host_query_after_stop key rest _ h2 h3 h4 (fun it hit => hc it (List.mem_cons_of_mem _ hit))
+    simp only [run]
+    refine ⟨?_, h6⟩
+    intro t o hm
+    rcases List.mem_append.mp hm with hm | hm
+    · obtain ⟨o', ho, he⟩ := List.mem_map.mp hm
+      simp only [Prod.mk.injEq] at he
+      exact he.2 ▸ h1 o' ho
+    · exact h5 t o hm
+
+/-- the delays are fine after every history from the start of the daemon -/
+theorem delays_ok_run (t0 : Nat) (intfs : List Intf) (h : List (Nat × List Packet × List Command)) :
+    DelaysOk (run (init t0 intfs) h).1 := by
+  have : ∀ (h : List (Nat × List Packet × List Command)) (hist : List Delivery) (s : State), CacheProv hist s.cache →
+      DelaysOk s → DelaysOk (run s h).1 := by
+    intro h
+    induction h with
+    | nil => intro _ _ _ hD; exact hD
+    | cons it rest ih =>
+      intro hist s hc hD
+      obtain ⟨now, pkts, cmds⟩ := it
+      simp only [run]
+      exact ih _ _ (ok_iter hist s now pkts cmds hc).1 (delayOk_iter hist s now pkts cmds hc hD)
+  exact this h [] _ (cacheProv_empty []) (fun _ hr => by cases hr)
+
+/-! #### non-vacuity -/
+
+/-- a browse with an announcement, its stop, and a long tail: the events on channel 1 are
+    `SearchStarted` first (twice more with the retransmissions), found / resolved in between,
+    `SearchStopped` last and once; no PTR query for the type after the stop.  Codes: 1 =
+    `SearchStarted`, 2 = `ServiceFound`, 3 = `ServiceResolved`, 4 = `SearchStopped`, 9 = the PTR
+    query for the type. -/
+example :
+    ((run (init 1000 [C03.eth0])
+        [(1000, [], [.browse C03.ty 1 false]), (1500, [C03.announce], []), (2000, [], []),
+         (2500, [], [.stopBrowse C03.ty]), (4000, [], []), (8000, [C03.announce], []), (100000, [], [])]).2.filterMap
+        fun o => (match o.2 with
+          | .event 1 .started => some (o.1, 1)
+          | .event 1 (.found ..) => some (o.1, 2)
+          | .event 1 (.resolved ..) => some (o.1, 3)
+          | .event 1 (.stopped ..) => some (o.1, 4)
+          | .event 1 _ => some (o.1, 0)
+          | .query [(n, 12)] _ => if n == C03.ty then some (o.1, 9) else none
+          | _ => none : Option (Nat × Nat))) =
+      [(1000, 1), (1000, 9), (1500, 2), (1500, 3), (2000, 1), (2000, 9), (2500, 4)] := by decide
+
+/-- a hostname search in mixed case, stopped in another letter case: `SearchStopped` is the last
+    event on the channel, no address query for the name afterwards.  Codes: 1 = `SearchStarted`,
+    4 = `SearchStopped`, 9 = a query the search causes (`asksHost`). -/
+example :
+    ((run (init 1000 [C03.eth0])
+        [(1000, [], [.resolveHost [0x48, 0x2e] 7 none]), (2000, [], []), (2500, [], [.stopResolve [0x68, 0x2e]]),
+         (4000, [], []), (8000, [], []), (100000, [], [])]).2.filterMap
+        fun o => (match o.2 with
+          | .event 7 .hstarted => some (o.1, 1)
+          | .event 7 (.hstopped _) => some (o.1, 4)
+          | .event 7 _ => some (o.1, 0)
+          | q => if asksHost [0x68, 0x2e] q then some (o.1, 9) else none : Option (Nat × Nat))) =
+      [(1000, 1), (1000, 9), (2000, 1), (2000, 9), (2500, 4)] := by decide
+
+end ClientModel
 
 end Mdns.Props.C13
